@@ -67,10 +67,13 @@ Inductive op :=
 | WriteSec (a : N) (tok : token) (sector : N) (cost : Z)
 | VerifySec (a : N) (tok : token) (sector : N) (cost : Z)
 | Expire (c : N)   (* not an RPC: the chain reaches the proof height of [c], or [c] is renewed *)
-| Cut (o : op)     (* the stream of [o] ends before the host has read all of the request: the header, or
-                      (write) the announced sector data.  ReadRequest / io.CopyN fail, and both come
-                      before the handler's first Contractor or Sectors call (server.go:190-197, 237-250,
-                      1236-1242): the handler returns an error. *).
+| Cut (o : op)     (* the host refuses [o] while it reads and validates the request: the stream ends before
+                      all of the request has arrived (the header, or the announced sector data of a write),
+                      or the request is structurally invalid (core's Validate: zero / unaligned / oversize
+                      lengths, leaf index out of range, more than 1000 batch entries; the handler's own
+                      segment-alignment check of a read).  ReadRequest / Validate / io.CopyN all come
+                      before the handler's first Contractor or Sectors call (server.go:190-203, 237-250,
+                      413-419, 454-460, 600-606, 1236-1242): the handler returns an error. *).
 
 (** What a wrapping Contractor / Sectors records, in call order. *)
 Inductive event :=
